@@ -845,7 +845,8 @@ func ruleRaiseOnOwnState(c *Ctx) {
 			continue
 		}
 		sig := fn.Signature
-		if sig.Params().Len() != 1 || sig.Results().Len() != 1 || typeName(sig.Params().At(0).Type()) != "LState" {
+		// host functions and the helpers they hand their state to (the state is the first parameter)
+		if sig.Params().Len() < 1 || typeName(sig.Params().At(0).Type()) != "LState" {
 			continue
 		}
 		withClosures(fn, func(f *ssa.Function) {
